@@ -14,7 +14,7 @@ SpineOps  == IF Deep >= 3 THEN {"nand", "via", "eq", "add", "mul", "pow", "coale
 FollowOps == IF Deep >= 3 THEN RepOps ELSE {"sub", "via", "pow"}
 
 VARIABLE t
-Init == t \in T1all \cup T2 \cup (IF Deep >= 3 THEN T3 ELSE {}) \cup Spines(SpineLen, SpineOps, FollowOps)
+Init == t \in T1all \cup T2 \cup (IF Deep >= 3 THEN T3 ELSE {}) \cup Spines(SpineLen, SpineOps, FollowOps) \cup ML1 \cup ML2 \cup (IF Deep >= 3 THEN ML3 ELSE {})
 Next == UNCHANGED t
 Spec == Init /\ [][Next]_t
 
